@@ -169,7 +169,7 @@ class Run:
                     self.broken_obligation("Generated/" + out_name, "the table translator rejected the source: " + r.stderr.strip()[-600:])
                     return False
             ensure_makefile()
-            targets = ["Props/%s.vo" % prop] + list(extra_targets)
+            targets = ["Props/%s.vo" % f[:-2] for f in prop_files(prop)] + list(extra_targets)
             cmd = ["timeout", "2400", "make", "-j16"] + targets
             r = subprocess.run(cmd, cwd=COQDIR, capture_output=True, text=True)
             self.cov["checker_cmd"] = "cd coq && coq_makefile -f _CoqProject -o Makefile && make -j16 " + " ".join(targets) + \
@@ -183,7 +183,7 @@ class Run:
         finally:
             fcntl.flock(lock, fcntl.LOCK_UN)
             lock.close()
-        cone = coq_cone("Props/%s.v" % prop)
+        cone = sorted(set(f for pf in prop_files(prop) for f in coq_cone("Props/" + pf)))
         n_stmt = n_closed = 0
         for f in cone:
             txt = strip_comments(open(os.path.join(COQDIR, f)).read())
@@ -197,10 +197,12 @@ class Run:
         self.cov["discharged"] = min(n_stmt, n_closed)
         self.cov["cone_files"] = cone
         # closedness of the property theorems
-        ptxt = strip_comments(open(os.path.join(COQDIR, "Props", prop + ".v")).read())
-        names = [n for (_, n) in STMT.findall(ptxt)]
-        src = "From Isobar Require Import Props.%s.\n" % prop + "".join(
-            'Print Assumptions %s.\n' % n for n in names)
+        names, src = [], ""
+        for pf in prop_files(prop):
+            ptxt = strip_comments(open(os.path.join(COQDIR, "Props", pf)).read())
+            ns = [n for (_, n) in STMT.findall(ptxt)]
+            names += ns
+            src += "From Isobar Require Import Props.%s.\n" % pf[:-2] + "".join('Print Assumptions %s.\n' % n for n in ns)
         out = self.coqc_text("assumptions", src)
         blocks = split_assumption_output(out, len(names))
         if blocks is None:
@@ -209,7 +211,7 @@ class Run:
             if b.strip().startswith("Closed under the global context"):
                 self.theorems[n] = "closed"
             else:
-                axs = re.findall(r"^([A-Za-z_][\w.']*)\s*:", b, re.M)
+                axs = [a for a in re.findall(r"^([A-Za-z_][\w.']*)\s*:", b, re.M) if a != "Axioms"]
                 bad = [a for a in axs if a not in ALLOWED_AXIOMS and a.split(".")[-1] not in ALLOWED_AXIOMS]
                 self.theorems[n] = "axioms: " + ", ".join(axs)
                 for a in axs:
@@ -348,6 +350,12 @@ def load_known_findings(prop):
     return [k for k in out if k.get("property") == prop]
 
 
+def prop_files(prop):
+    """the files holding the property theorems of `prop`: Props/<prop>.v and Props/<prop><Suffix>.v (e.g. C01Float.v)"""
+    d = os.path.join(COQDIR, "Props")
+    return sorted(f for f in os.listdir(d) if re.fullmatch(re.escape(prop) + r"[A-Za-z]*\.v", f))
+
+
 def strip_comments(txt):
     out, depth, i, n = [], 0, 0, len(txt)
     in_str = False
@@ -447,8 +455,12 @@ def main_entry(module, argv):
             rc = module.replay(run, json.load(open(a.replay)))
             shutil.rmtree(run.work, ignore_errors=True)
             return rc
-        if run.build(getattr(module, "EXTRA_TARGETS", ()), getattr(module, "EXTRA_GENERATORS", ())):
+        import extra_checks
+        xg, xc = extra_checks.EXTRA.get(module.PROP, ((), ()))
+        if run.build(getattr(module, "EXTRA_TARGETS", ()), tuple(getattr(module, "EXTRA_GENERATORS", ())) + tuple(xg)):
             module.check(run)
+            for f in xc:
+                f(run)
         rc = run.finish()
         print("%s %s tier=%s seed=%d evaluations=%d nontrivial=%d obligations=%d/%d wall=%.1fs" % (
             module.PROP, "FAIL" if rc else "ok", a.tier, a.seed, run.cov["evaluations"],
